@@ -48,10 +48,16 @@ async fn start_cluster(layout: &[u64]) -> Vec<Member> {
 }
 
 async fn try_start_cluster(layout: &[u64]) -> Option<Vec<Member>> {
+    // node ids are handed out in this order: the data centres take turns, so that the ids of one data centre are not
+    // a contiguous run (node ids, like names, are values with structure: order, adjacency)
     let mut plan = vec![];
-    for (d, size) in layout.iter().enumerate() {
-        for _ in 0..*size {
-            plan.push((d as u64 + 1, free_addr()));
+    let mut left: Vec<u64> = layout.to_vec();
+    while left.iter().any(|n| *n > 0) {
+        for (d, n) in left.iter_mut().enumerate() {
+            if *n > 0 {
+                *n -= 1;
+                plan.push((d as u64 + 1, free_addr()));
+            }
         }
     }
     let addrs: Vec<String> = plan.iter().map(|p| p.1.to_string()).collect();
